@@ -15,10 +15,19 @@ def sh(cmd, cwd=REPO, timeout=3600):
     return p.returncode, p.stdout
 
 
+FEATURES = []
+try:
+    _m = json.load(open(os.path.join(seed_dir, "meta.json")))
+    if _m.get("features"):
+        FEATURES = ["--features", _m["features"]]
+except Exception:
+    pass
+
+
 def demo(label):
     shutil.copy(os.path.join(seed_dir, "demo.rs"), os.path.join(REPO, "tests", "zz_seed_demo.rs"))
     try:
-        rc, out = sh(["cargo", "test", "--offline", "--test", "zz_seed_demo"])
+        rc, out = sh(["cargo", "test", "--offline", "--test", "zz_seed_demo"] + FEATURES)
     finally:
         os.remove(os.path.join(REPO, "tests", "zz_seed_demo.rs"))
     tail = [l for l in out.split("\n") if l.startswith("test result") or "error" in l.lower()][:3]
